@@ -929,5 +929,39 @@ class ExprMixin:
     def ev_GeneratorExp(self, node):
         return models.list_comp(self, node)
 
+    # ---------------------------------------------------------------- generators
+    def gen_yield_seq(self, seqterm, node):
+        """The generator under contract yields the elements of a sequence: they are appended to
+        the ghost 'yielded'; the consumer may close or drop the generator after any element
+        (GeneratorExit raised at the yield, so that finally blocks run as in CPython)."""
+        c = self.cell(VPtr(-1))
+        n = z3.Length(seqterm)
+        closed = z3.Bool(self.fresh_name('consumer_closes'))
+        if self.branch(z3.And(closed, n >= 1)):
+            k = z3.Int(self.fresh_name('taken'))
+            self.assume(z3.And(k >= 1, k <= n))
+            self.setcell(VPtr(-1), ListCell(z3.Concat(c.seq, z3.SubSeq(seqterm, 0, k)), 'ref'))
+            self.raise_('GeneratorExit', node)
+        self.setcell(VPtr(-1), ListCell(z3.Concat(c.seq, seqterm), 'ref'))
+
+    def ev_Yield(self, node):
+        v = self.res(self.ev(node.value)) if node.value is not None else NONE
+        if not isinstance(v, VOpaque):
+            self.limit('yield of a non-object value', node)
+        self.gen_yield_seq(z3.Unit(v.t), node)
+        return NONE
+
+    def ev_YieldFrom(self, node):
+        v = self.res(self.ev(node.value))
+        if isinstance(v, VPtr) and isinstance(self.cell(v), ListCell):
+            c = self.cell(v)
+            if c.seq is None:
+                return NONE
+            if not (c.kind == 'ref' or ref_cls(c.kind)):
+                self.limit('yield from a list of non-objects', node)
+            self.gen_yield_seq(c.seq, node)
+            return NONE
+        self.limit(f'yield from {v}', node)
+
     def ev_Starred(self, node):
         self.limit('starred expression', node)
